@@ -10,6 +10,7 @@
 -/
 import Bita.Spec.Chunking
 import Bita.Spec.Tiling
+import Bita.Proofs.ValidLemmas
 
 namespace Bita.Proofs
 open Bita Bita.Spec
@@ -31,9 +32,9 @@ theorem firstBoundary_bounds (algo : Algo) (n : Nat) (mask : U32) (data : Bytes)
     · have := ih _ _ h; omega
 
 theorem specCut_bounds (algo : Algo) (f : FilterConfig) (data : Bytes) (s L : Nat)
-    (hv : f.Valid) (hs : s < data.length) (h : specCut algo f data s = some L) :
+    (hv : f.Sane) (hs : s < data.length) (h : specCut algo f data s = some L) :
     max f.minSize 1 ≤ L ∧ L ≤ f.maxSize ∧ s + L ≤ data.length := by
-  obtain ⟨hw1, hw2, hmm, _, _⟩ := hv
+  obtain ⟨hw1, hm1, hmm, _, _⟩ := hv
   unfold specCut at h
   simp only at h
   split at h
@@ -89,7 +90,7 @@ theorem fixedChunksFrom_fuel (n len : Nat) :
 
 /-! ### Tiling -/
 
-theorem specChunksFrom_tile (algo : Algo) (f : FilterConfig) (hv : f.Valid) (data : Bytes) :
+theorem specChunksFrom_tile (algo : Algo) (f : FilterConfig) (hv : f.Sane) (data : Bytes) :
     ∀ k s, s ≤ data.length → data.length - s < k →
       Tiles (specChunksFrom algo f data k s) s data.length := by
   intro k
@@ -139,7 +140,7 @@ theorem mem_dropLast_cons {α : Type} (a : α) (l : List α) (c : α) (h : c ∈
     rw [List.dropLast_cons_cons, List.mem_cons] at h
     exact h
 
-theorem specChunksFrom_bounds (algo : Algo) (f : FilterConfig) (hv : f.Valid) (data : Bytes) :
+theorem specChunksFrom_bounds (algo : Algo) (f : FilterConfig) (hv : f.Sane) (data : Bytes) :
     ∀ k s, ∀ c ∈ (specChunksFrom algo f data k s).dropLast,
       max f.minSize 1 ≤ c.2 ∧ c.2 ≤ f.maxSize := by
   intro k
@@ -443,8 +444,8 @@ open SpecChunks
 theorem specChunks_tile (cfg : Config) (hv : cfg.Valid) (data : Bytes) :
     Tiles (specChunks cfg data) 0 data.length := by
   cases cfg with
-  | rollsum f => exact specChunksFrom_tile .roll f hv data _ 0 (by omega) (by omega)
-  | buzhash f => exact specChunksFrom_tile .buz f hv data _ 0 (by omega) (by omega)
+  | rollsum f => exact specChunksFrom_tile .roll f (FilterConfig.Sane_of_ValidRoll hv) data _ 0 (by omega) (by omega)
+  | buzhash f => exact specChunksFrom_tile .buz f (FilterConfig.Sane_of_Valid hv) data _ 0 (by omega) (by omega)
   | fixed n => exact fixedChunksFrom_tile n hv data.length _ 0 (by omega) (by omega)
 
 theorem tiles_concat (data : Bytes) (cs : List (Nat × Nat)) (s : Nat)
@@ -472,8 +473,8 @@ theorem specChunks_bounds (cfg : Config) (hv : cfg.Valid) (data : Bytes) :
       | .fixed n => c.2 = n := by
   intro c hc
   cases cfg with
-  | rollsum f => exact specChunksFrom_bounds .roll f hv data _ _ c hc
-  | buzhash f => exact specChunksFrom_bounds .buz f hv data _ _ c hc
+  | rollsum f => exact specChunksFrom_bounds .roll f (FilterConfig.Sane_of_ValidRoll hv) data _ _ c hc
+  | buzhash f => exact specChunksFrom_bounds .buz f (FilterConfig.Sane_of_Valid hv) data _ _ c hc
   | fixed n => exact fixedChunksFrom_bounds n data.length _ _ c hc
 
 set_option linter.unusedVariables false in
